@@ -148,7 +148,7 @@ func (k *checker) meshRules() {
 	}
 	c.R.Extra["mesh_pool_methods"] = len(pools)
 	c.R.Extra["mesh_parallel_wrappers"] = wrappers
-	c.R.Floor("SYM-PART", 12)
+	c.R.Floor("SYM-PART", 18)
 	c.R.Floor("SHAPE-2", 7)
 	c.R.Floor("CONC-2", 6)
 	c.R.Floor("CONC-3", 6)
